@@ -662,7 +662,18 @@ def gen_layout(seed, tier, focus):
         g_ = ch.pick("workload", "guessprobe-g", [16, 16, 96]) if segk > 96 else 16
         cfg["knobs"]["guess_seg"] = g_
         ops[0] = ["read", min(size - 1, ch.pick("workload", "guessprobe-off", [g_, 2 * g_ + 1, 3 * g_ + 5, 5 * g_])), None, 0.0, False]
-    if focus == "C03" and ch.chance("workload", "c03-follow", 0.5):
+    if focus == "C03" and ch.chance(F, "late-then-break", 0.12) and n >= k + 1 and nservers >= k + 1:
+        # the servers holding the spare shares answer the share query only after the first read has finished (while the node
+        # is idle); a server used by the first read then goes bad for good, so a later read needs exactly those spare shares
+        placement = [[sh, sh % nservers] for sh in range(n)]
+        cfg["placement"] = placement
+        muts = []
+        fast = ch.sample(F, "ltb-fast", range(min(n, nservers)), k)
+        faults = [["stall", srv, "get_buckets", 1, ch.pick(F, ("ltb-secs", srv), [3.0, 12.0, 40.0])] for srv in range(nservers) if srv not in fast]
+        faults.append(["error", ch.pick(F, "ltb-victim", fast), "read", ch.randint(F, "ltb-nth", 2, 30), 1.0, True])
+        ops = [["read", 0, ch.pick("workload", "ltb-sz", [None, segk, 1]), 0.0, False],
+               ["read", ch.pick("workload", "ltb-off2", [0, segk, size // 2]), None, 0.0, True]]
+    elif focus == "C03" and ch.chance("workload", "c03-follow", 0.5):
         # later reads through the same node (shares located while the node was idle must not be forgotten)
         for i in range(ch.randint("workload", "c03-nfollow", 1, 2)):
             off = ch.pick("workload", ("c03-foff", i), [0, 0, segk, 2 * segk, size - 1])
